@@ -68,6 +68,7 @@ func (b *backoff) updateAndGet(id peer.ID) (time.Duration, error) {
 
 	case h.duration < MaxBackoffDelay:
 		jitter := rand.Intn(MaxBackoffJitterCoff)
+		jitter = verifPick(jitter, MaxBackoffJitterCoff)
 		h.duration = (BackoffMultiplier * h.duration) + time.Duration(jitter)*time.Millisecond
 		if h.duration > MaxBackoffDelay || h.duration < 0 {
 			h.duration = MaxBackoffDelay
